@@ -158,6 +158,10 @@ def replay(prop, path):
             print("VIOLATION property=%s replay=%s" % (prop, path))
             return 1
         return 0
+    if str(sc.get("id", "")).startswith("ssk-replay"):
+        # a behaviour of the v2 shared destination: replay it on the real workers
+        from checks import sharedsink_model
+        return sharedsink_model.replay(prop, doc, path)
     if doc["violation"]["invariant"] == "ArbiterConforms":
         # a voting history of the v2 fan-out arbiter: replay it on the real type, compare with the stored expectation
         w = doc["violation"]["what"]
